@@ -6,7 +6,7 @@
 
 static void check_reads (int format, int ch, int rate, int t, int framewise)
 {	MEMF m ; SNDFILE *s ; SF_INFO ri ; const char *fn = vh_fname (format) ; int ts = vh_tsize [t], B = vh_block (format, ch, rate), i, j ;
-	long N = B > 1 ? 3 * B + B / 2 + 3 : 5003, F, got ; char *ref ; int KB = ((format & SF_FORMAT_SUBMASK) >= SF_FORMAT_ALAC_16 && (format & SF_FORMAT_SUBMASK) <= SF_FORMAT_ALAC_32) ? 4096 : B ;	/* packet length for the key classes */
+	long N = B > 1 ? 3 * B + B / 2 + 3 : 9001, F, got ;	/* longer than the largest staging buffer (8192 items) */ char *ref ; int KB = ((format & SF_FORMAT_SUBMASK) >= SF_FORMAT_ALAC_16 && (format & SF_FORMAT_SUBMASK) <= SF_FORMAT_ALAC_32) ? 4096 : B ;	/* packet length for the key classes */
 	if (N < 3000) N = 3000 + B / 2 + 3 ;		/* long enough for requests beyond the staging buffers even when the codec block is small (PAF 24: 10 frames) */
 	if (N * ch > 60000) N = 60000 / ch + 1 ;
 	if (vh_make_file (&m, format, ch, rate, N, 1 + ((t + framewise) & 1)) != 0) { vh_statf (1, "cannot_write:%s", fn) ; mv_free (&m) ; return ; }	/* two-tone or position-addressable noise */
